@@ -89,6 +89,11 @@ class T(Referenceable):
     def remote_give(self):
         return self.gift
 
+    who = None
+
+    def remote_whoami(self):
+        return self.who
+
 
 def independent_tubid(cert):
     """tub id of a certificate computed WITHOUT foolscap: base32(sha1(DER)), lower case, no padding"""
@@ -281,7 +286,7 @@ class Trial:
     def go(self):
         cfg, ids = self.cfg, self.ids
         self.B.registerReference(T(), name="svc")
-        furl = "pb://%s@fake:b:1/svc" % ids[cfg.get("dial", "B")]
+        furl = self.furl = "pb://%s@fake:b:1/svc" % ids[cfg.get("dial", "B")]
         res = []
         holder = []
 
@@ -336,6 +341,9 @@ def judge(ctx, tag, cfg, t):
             problems.append(("getReference-succeeded-without-proof", "A", dial, None))
     if len(t.result) != 1:
         problems.append(("getReference-fired-%d-times" % len(t.result), "A", dial, None))
+    for rr in t.rref:
+        for (sig, what) in reference_problems(t.A, t.furl, rr):
+            problems.append((sig, "A", what, None))
     honest = honest_cell(cfg)
     if honest and t.result != [42]:
         problems.append(("honest-pair-did-not-connect", "A", dial, repr(t.result)))
@@ -346,6 +354,40 @@ def judge(ctx, tag, cfg, t):
                  % (p[0], p[1], p[2], p[3], cfg), replay=dict(cell=cfg, ids=ids, attached=t.attached, final=t.final,
                                                                result=t.result, neglog=t.neglog))
     return not problems
+
+
+def furl_parts(furl):
+    """(tub id, name) of a FURL, parsed WITHOUT foolscap"""
+    return url_tubid(furl), furl.rsplit("/", 1)[1]
+
+
+def reference_problems(client, furl, rref):
+    """the property on ONE getReference result: a reference handed out for a FURL naming X must sit on the Tub.brokers
+    entry for X, whose transport's LEAF certificate hashes to X (loopback: X is the Tub's own id), and must name X"""
+    want_id, want_name = furl_parts(furl)
+    out = []
+    if not (hasattr(rref, "tracker") and hasattr(rref, "callRemote")):
+        return out
+    b = rref.tracker.broker
+    keys = [tr.getTubID() for tr, bb in client.brokers.items() if bb is b]
+    tr = b.transport
+    if isinstance(tr, E.End):
+        cid = independent_tubid(tr.peer_cert)
+    else:
+        cid = client.tubID          # loopback: the Tub talking to itself
+        keys = keys or [b.remote_tubref.getTubID()]
+    if cid != want_id:
+        out.append(("reference-from-unproven-connection", "getReference(%s) returned a reference over a connection whose peer "
+                    "authenticated as %s" % (furl, cid)))
+    if b.remote_tubref is None or b.remote_tubref.getTubID() != want_id or rref.getRemoteTubID() != want_id:
+        out.append(("reference-from-other-tubs-connection", "getReference(%s) returned a reference whose Broker is the connection to %s"
+                    % (furl, b.remote_tubref and b.remote_tubref.getTubID())))
+    if keys and want_id not in keys:
+        out.append(("reference-from-other-tubs-connection", "getReference(%s) returned a reference over the Tub.brokers entry %s" % (furl, keys)))
+    u = rref.tracker.url
+    if u is not None and (url_tubid(u) != want_id or u.rsplit("/", 1)[1] != want_name):
+        out.append(("reference-names-other-object", "getReference(%s) returned a reference whose own URL is %s" % (furl, u)))
+    return out
 
 
 def honest_cell(cfg):
@@ -490,6 +532,7 @@ def history_trial(rng, length):
     id_r = independent_tubid(cert_r)
     nraw = [0]
     problems, ops, model_ops, tables = [], [], [], []
+    asked = []
     cur = dict(first_link=10 ** 9, side=None, claim=None)
 
     def mangle(link, side, d):
@@ -558,6 +601,7 @@ def history_trial(rng, length):
                     tubs[x].presented_cert = env.t.certs[cert]
                 res = []
                 if kind == "out":
+                    asked.append(("pb://%s@fake:%s:1/svc" % (ids[x], x.lower()), res))
                     A.getReference("pb://%s@fake:%s:1/svc" % (ids[x], x.lower())).addBoth(res.append)
                     model_ops.append(("neg", "Client", x, cert, claim_s, True, False))
                 else:
@@ -597,6 +641,9 @@ def history_trial(rng, length):
                     problems.append(("loopback-under-foreign-id", "Tub %s registered a loopback under %s" % (n, k)))
             elif cid is None or cid != k:
                 problems.append(("attached-unproven", "Tub %s registered %s over a connection whose certificate hashes to %s" % (n, k, cid)))
+        for (furl, res) in asked:
+            for r_ in res:
+                problems += reference_problems(A, furl, r_)
         problems += [(p[0], repr(p[1:])) for p in env.t.bad]
         return dict(a_pos=a_pos, ops=ops, model_ops=model_ops, tables=tables, problems=problems)
     finally:
@@ -836,4 +883,124 @@ def raw_trial(role, a_pos, leaf, x, extras, blocks, cuts):
                     claims=dict(Hleaf=leaf_id, Hx=x_id))
     finally:
         A.stopService()
+        E.turn()
+
+
+# ------------------------------------------------------------------------------------------ getReference request histories
+def make_tub_unstarted(net, name, pemdata):
+    """harness.implenv.make_tub without startService(): requests made now are queued by the Tub"""
+    import foolscap.pb as pb
+    t = Tub(certData=pemdata)
+    t.removeAllConnectionHintHandlers()
+    t.addConnectionHintHandler("fake", E.FakeHandler(net))
+    l = pb.Listener.__new__(pb.Listener)
+    l._tub = t
+    l._test_options = {}
+    l._redirects = {}
+    l._negotiationClass = t.negotiationClass
+    l._lp = None
+    l._ep = "fake"
+    t.listeners.append(l)
+    t.setLocation("fake:%s:1" % name)
+    net.tubs[name] = t
+    return t
+
+
+GR_TARGETS = ["A", "B", "C", "Cimp"]      # Cimp: the FURL names Tub C but its hint leads to Tub B's listener
+GR_NAMES = ["o1", "o2"]
+
+
+def getref_trial(a_pos, ops):
+    """ops: ('req', target, name) | ('start',).  Tub A makes the requests; those before 'start' are queued by the Tub.
+    -> per request: what came back, judged by the per-reference oracle, and which object a call on it reaches."""
+    reset()
+    net = Net()
+    arr = arrangement(a_pos)
+    ids = {k: v[0] for k, v in arr.items()}
+    A = make_tub_unstarted(net, "a", arr["A"][1])
+    B = make_tub(net, "b", arr["B"][1])
+    C = make_tub(net, "c", arr["C"][1])
+    tubs = dict(A=A, B=B, C=C)
+    attached = []
+    for nm, t in tubs.items():
+        orig = t.brokerAttached
+
+        def brokerAttached(tubref, broker, isClient, orig=orig, nm=nm):
+            tr = broker.transport
+            attached.append((nm, tubref.getTubID(), bool(isClient), independent_tubid(tr.peer_cert) if isinstance(tr, E.End) else "loopback"))
+            return orig(tubref, broker, isClient)
+        t.brokerAttached = brokerAttached
+    try:
+        for nm, t in tubs.items():
+            for on in GR_NAMES:
+                o = T()
+                o.who = [nm, on]
+                t.registerReference(o, name=on)
+        requests = []       # (furl, target, name, results, reached)
+        started = False
+        for op in ops:
+            if op[0] == "start":
+                if not started:
+                    A.startService()
+                    started = True
+                E.turn()
+                pump_keep_sending(net)
+                continue
+            _, target, name = op
+            tid = ids["C"] if target == "Cimp" else ids[target]
+            loc = "b" if target == "Cimp" else target.lower()
+            furl = "pb://%s@fake:%s:1/%s" % (tid, loc, name)
+            results, reached = [], []
+
+            def got(rr, reached=reached):
+                d = rr.callRemote("whoami")
+                d.addBoth(lambda w: reached.append(w if isinstance(w, list) else getattr(w, "type", type(w)).__name__))
+                return rr
+            A.getReference(furl).addCallback(got).addBoth(results.append)
+            requests.append((furl, target, name, results, reached))
+            E.turn()
+            pump_keep_sending(net)
+        for i in range(3):
+            if all(r[3] for r in requests):
+                break
+            E.clock.advance(130)
+            E.turn()
+            pump_keep_sending(net)
+        problems, obs = [], []
+        for (furl, target, name, results, reached) in requests:
+            if not started:
+                if results:
+                    problems.append(("request-answered-before-start", "getReference(%s) fired before startService" % furl))
+                obs.append(None)
+                continue
+            if len(results) != 1:
+                problems.append(("getReference-fired-%d-times" % len(results), "getReference(%s)" % furl))
+                obs.append(None)
+                continue
+            r_ = results[0]
+            ok = hasattr(r_, "callRemote") and hasattr(r_, "tracker")
+            if ok:
+                problems += reference_problems(A, furl, r_)
+                want = ["C" if target == "Cimp" else target, name]
+                if reached and reached[0] != want:
+                    problems.append(("reference-reaches-other-object", "getReference(%s) returned a reference on which a call reaches object %r "
+                                     "(requested: %r)" % (furl, reached[0], want)))
+                key = r_.tracker.broker.remote_tubref.getTubID()
+                obs.append((key, reached[0][1] if reached and isinstance(reached[0], list) else None))
+            else:
+                # (TubRefs compare by tub id only: a request for C can share the fate of a pending connector to "C at B's location")
+                if target != "Cimp" and not any(o[0] == "req" and o[1] == "Cimp" for o in ops):
+                    problems.append(("honest-request-failed", "getReference(%s) failed: %r" % (furl, getattr(r_, "type", r_))))
+                obs.append(None)
+        for (n, k, ic, cid) in attached:
+            if cid == "loopback":
+                if k != tubs[n].tubID:
+                    problems.append(("loopback-under-foreign-id", "Tub %s registered a loopback under %s" % (n, k)))
+            elif cid is None or cid != k:
+                problems.append(("attached-unproven", "Tub %s registered %s over a connection authenticated as %s" % (n, k, cid)))
+        return dict(a_pos=a_pos, ops=[list(o) for o in ops], obs=obs, started=started, problems=problems, ids=ids)
+    finally:
+        for t in tubs.values():
+            if t.running:
+                t.stopService()
         E.turn()
